@@ -46,7 +46,7 @@ CHECKS["C07"] = dict(
          "RecurrenceNetwork, JointRecurrencePlot/JointRecurrenceNetwork and TLC decides MatrixDef (order-statistic thresholds), Sizes, "
          "Composition, NetDef, RateDef and applicability of every RQA method (run-length counts of the reported matrix).",
     note="Integer-valued data (exact in float32); euclidean distances compared through squares; adaptive variant only by its stated "
-         "guarantee (symmetric, >= m neighbours); threshold_std and normalize are not driven.",
+         "guarantee (symmetric, >= m neighbours); normalize is not driven.",
     ref="6/C07")
 
 CHECKS["C13"] = dict(
@@ -69,7 +69,7 @@ CHECKS["C09"] = dict(
          "request, miss <= ties), Monotone over the whole history, Consistent (threshold/density/n_links/adjacency) and Functional "
          "(object = twin, incl. memoised degree and three more measures) at every step.",
     note="tanh distance weighting is only constrained relationally (non-local links are a subset of local links at equal threshold); "
-         "data-driven subclasses (Tsonis, Spearman, MutualInfo, ...) are covered under C10/C01, not here.",
+         "data-driven subclasses (Tsonis, Hilbert) are decided up to a margin around the threshold (Val_C09d).",
     ref="6/C09")
 
 CHECKS["C03"] = dict(
@@ -81,8 +81,8 @@ CHECKS["C03"] = dict(
          "rejecting the first measure that differs or raises where it is defined; seeded random graphs of 6..10 nodes are validated the "
          "same way.",
     note="Defined() withdraws the clause where the library only forwards an igraph convention (closeness/average path length on "
-         "disconnected or directed graphs); assortativity, eigenvector centrality, PageRank, random-walk betweenness and weighted "
-         "(link-attribute) variants have no definition yet and are covered by C01/C02/C04/C06 only.  Fixed point 10^-6, tolerance 4e-5.",
+         "disconnected or directed graphs); random-walk betweenness has no definition yet (C01/C02/C04/C06 only); eigenvector "
+         "centrality and PageRank are decided as residual conditions.  Fixed point 10^-6, tolerance 4e-5.",
     ref="6/C03")
 
 CHECKS["C02"] = dict(
@@ -95,7 +95,7 @@ CHECKS["C02"] = dict(
          "sources/targets, add_local_ends, exclude_neighbors and twinness argument patterns.",
     note="Measures undefined on the instance are withdrawn (nsi_eigenvector_centrality unless undirected+connected+>=3 nodes; "
          "shortest-path and random-walk betweenness on directed networks); four methods are excluded by name (see evidence). "
-         "Two-group (InteractingNetworks) variants are decided under C11's check.  Tolerance 6e-5.",
+         "Two-group (InteractingNetworks) n.s.i. measures: undirected networks only.  Tolerance 6e-5.",
     ref="6/C02")
 
 CHECKS["C04"] = dict(
@@ -247,6 +247,44 @@ NOT_APPLICABLE = {
 NOT_YET = []
 
 
+EXT = {
+    "C01": " Added in the second session: the guarded lookup hook in core/cache.py (shadow re-evaluation of every cache hit -> clause "
+           "NoStaleHit; key-material log validated by Val_Cache against CacheProtocol.tla, itself model-checked with two negative "
+           "controls); families Surrogates, Tsonis, Hilbert, InterSystemRecurrenceNetwork, CoupledClimateNetwork, "
+           "EventSeriesClimateNetwork; same-array mutators; disconnected token-2 graphs.",
+    "C02": " Added: every third case on a warm object re-weighted in place; group-indexed n.s.i. cross / internal measures of "
+           "InteractingNetworks under Split.",
+    "C03": " Added: OrderIndependent (same queries in the opposite order on a fresh object); link-weighted variants (strengths, "
+           "Fagiolo motif clustering with W^[1/3], weighted path lengths); degree assortativity; eigenvector centrality and "
+           "PageRank as residual conditions.",
+    "C04": " Added: list-indexed cross / internal measures of InteractingNetworks under renumbering (balanced split from the spec).",
+    "C05": " Added: shuffled-edge igraph / edge-list paths, copies of non-matrix networks, signed attribute values, save-change-save "
+           "histories, GeoNetwork / SpatialNetwork save-Load, total / mean weight consistency on every path.",
+    "C06": " Added: input digests taken before construction, dtype / order variants of every caller array, a second object from the "
+           "same arrays, function targets, NoStaleHit by shadow re-evaluation, targets EventSeries, Havlin, Hilbert, partial "
+           "correlation, CoupledClimateNetwork, EventSeriesClimateNetwork, disconnected and interacting networks, data flagged as "
+           "anomalies.",
+    "C07": " Added: threshold in units of the standard deviation (exact, ties open); every second case reaches its setting through "
+           "the setter on an object constructed with another setting (all six classes).",
+    "C08": " Added: rqa_summary, recurrence_probability, partially missing state vectors.",
+    "C09": " Added: asymmetric matrices with distinct entries (sharp density clause for directed networks); the same behaviours on "
+           "CoupledClimateNetwork; NonLocalDef from the harness' coordinates; data-driven subclasses along ObjectSM histories "
+           "(Val_C09d).",
+    "C10": " Added: partial correlation (cofactors of the covariance matrix), surrogate test matrices (mean product, binned MI), "
+           "translation invariance under a 2^20 offset, all climate classes of a case share one ClimateData.",
+    "C11": " Added: CoupledClimateNetwork wrappers under the same clauses; link-weighted path lengths, closeness, efficiency, strength.",
+    "C12": " Added: Stable (distances unchanged after network analysis), irrigation weights, total / mean weight consistency, "
+           "Euclidean nearest-node lookup, antipodal queries.",
+    "C13": " Added: input representations (int64 / strided / float32), translated time axis, indices_selected_phases.",
+    "C14": " Added: visibility / visibility_single accessors.",
+    "C15": " Added: repeated twin_surrogates with another embedding dimension, two series per object, RecurrencePlot.twins / "
+           "twin_surrogates (also after re-thresholding).",
+    "C16": " Added: request order per case on one object, EventSeriesClimateNetwork, sparse length-10 triples.",
+    "C17": " Added: non-ascending node lists in the cross-link replay, isolated highest node (NodeCount).",
+    "C18": " Added: update through the caller's own edited array, non-integral rescaling, int64 construction.",
+}
+
+
 def main():
     hooks_commits = []
     hf = os.path.join(ROOT, "hooks_commits.txt")
@@ -262,7 +300,7 @@ def main():
             "evidence_file": "/verif/evidence/%s.json" % pid,
             "replay_cmd_template": "./check %s --replay {path}" % pid,
             "engine": "tlc-loop",
-            "level_claimed": {"category": "model_checking", "text": c["text"],
+            "level_claimed": {"category": "model_checking", "text": c["text"] + EXT.get(pid, ""),
                               "design_ref": "DESIGN.md section " + c["ref"]},
             "level_note": c["note"],
             "technique": c["technique"],
